@@ -10,7 +10,7 @@ const { norm } = require('../oracles/erase')
 
 async function build (tier) {
   // quick tier: in family B a second deviation is only taken as (statement ctx x expression ctx) pair
-  const r = F.all(tier, { families: ['A', 'B', 'C', 'G', 'M', 'S', 'P', 'T'], B: tier === 'thorough' ? {} : { pairs: 'ctx-only' } })
+  const r = F.all(tier, { families: ['A', 'B', 'C', 'G', 'M', 'S', 'P', 'T', 'H', 'Q', 'R'], B: tier === 'thorough' ? {} : { pairs: 'ctx-only' }, H: { L: 3 } })
   return {
     leaves: r.leaves,
     stats: r.stats,
